@@ -25,6 +25,21 @@ off_t real_lseek(int fd, off_t o, int w) { return __real_lseek64(fd, o, w); }
 int real_close(int fd) { return __real_close(fd); }
 int real_ftruncate(int fd, off_t l) { return __real_ftruncate64(fd, l); }
 
+/* ---- allocator seam: the k-th allocation made while the seam is armed can be answered with NULL ---- */
+extern void *__real_malloc(size_t);
+extern void *__real_calloc(size_t, size_t);
+extern void *__real_realloc(void *, size_t);
+int env_alloc_on = 0, env_alloc_count = 0, env_alloc_fail_at = -1;
+static int alloc_fails(void) {
+    if(!env_alloc_on) return 0;
+    int k = env_alloc_count++;
+    if(k == env_alloc_fail_at) { errno = ENOMEM; return 1; }
+    return 0;
+}
+void *__wrap_malloc(size_t n) { return alloc_fails() ? NULL : __real_malloc(n); }
+void *__wrap_calloc(size_t a, size_t b) { return alloc_fails() ? NULL : __real_calloc(a, b); }
+void *__wrap_realloc(void *p, size_t n) { return alloc_fails() ? NULL : __real_realloc(p, n); }
+
 #define MAXFD 1024
 static unsigned char roles[MAXFD];
 static int env_on = 0;
